@@ -16,8 +16,8 @@ from gen.program import gen_program
 from simplify import alpha
 
 ID = "C01"
-THEOREMS = ["chain_backend", "backend_preserves", "den_to_denLz", "chain_den", "chain_built", "backend_front_preserves", "chain_backend_front_partial"]
-LEANCHECKER_MODULES = ["Fadl.Props.C01Full", "Fadl.Lemmas.StrictLazy", "Fadl.Props.C01"]  # re-checked by leanchecker in the thorough tier
+THEOREMS = ["chain_text_backend", "frontText_stepImp", "runChain_imp", "chain_backend", "backend_preserves", "den_to_denLz", "chain_den", "chain_built", "backend_front_preserves", "chain_backend_front_partial"]
+LEANCHECKER_MODULES = ["Fadl.Props.C01Front", "Fadl.Props.C01Full", "Fadl.Lemmas.StrictLazy", "Fadl.Props.C01"]  # re-checked by leanchecker in the thorough tier
 RULE = (
     "generated programs (gen/program.py): trees of 1-6 Select/Where/SelectMany calls with branching from shared parents "
     "and inner streams also asked for their value; lambdas as Python callables in a generated module file (captured module "
@@ -31,7 +31,7 @@ RULE = (
     ">= 2 operator calls or a nested operator; distinct = module text"
 )
 EXPLANATION = (
-    "Theorems: chain_backend (end to end: for every chain, lambda bodies, world and dataset, if the chain run on the "
+    "Front to back for lambdas given as text / AST on an untyped dataset (Props/C01Front.lean): chain_text_backend - whatever the chain of WRITTEN lambdas (comprehensions and generator expressions with Python's own semantics) computes when Python runs it on the in-memory sequence, the AST the library builds from what its front end emits for each lambda (resolve_syntatic_sugar, then the type follower), after the three backend passes, computes under deferred execution; composition of sugar_preserves (C06), streamOp_untyped_identity (C10), runChain_imp and chain_backend; FrontText has a worked instance. Theorems: chain_backend (end to end: for every chain, lambda bodies, world and dataset, if the chain run on the "
     "in-memory sequence gives `out`, then the AST built for the chain, after all three backend passes - toCalls, aggT, "
     "checked simplifier - evaluates under deferred execution to `out`), from chain_den (the AST denotes the chain), "
     "chain_built (the stream machinery builds exactly that AST; heap model of C11/C12), backend_front_preserves, "
